@@ -30,7 +30,11 @@ class Prop(PropBase):
 
     def history(self, rng, kind, name, port):
         l = self.L['RS16']
-        cfg = pktgen.Cfg(wait=0, dense=0, pktcb=1, lclock=1, mode=3, nblk=3)
+        # frames of 3 blocks (a packet of 12 blocks ends on a frame boundary), of 13 (the boundary drifts through the packets), or of 1:
+        # then the first block after every (re)start closes a frame that is empty - stop() emptied it -: nothing is delivered for it
+        # and no sequence number is used up
+        self._nh = getattr(self, '_nh', 0) + 1
+        cfg = pktgen.Cfg(wait=0, dense=0, pktcb=1, lclock=1, mode=3, nblk=(3, 13, 1)[self._nh % 3])
         lines = [f'S {name}', cfg.line(0, l)]
         ms = scen.MechStream(rng, l)
         pk = [l.difop()] + [ms.msop() for _ in range(4)]
